@@ -54,7 +54,7 @@ def families(rng):
     from scipy import stats
     return [
         ('norm', lambda: frozen(rng, stats.norm, (), rng.choice([0.0, 1.0, -2.0]), rng.choice([1.0, 2.0, 0.5]))),
-        ('lognorm', lambda: frozen(rng, stats.lognorm, (rng.choice([0.25, 0.5, 1.0]),), None, rng.choice([1.0, 2.0]))),
+        ('lognorm', lambda: frozen(rng, stats.lognorm, (rng.choice([0.25, 0.5, 1.0]),), rng.choice([None, None, 10.0, -2.0]), rng.choice([1.0, 2.0]))),
         ('expon', lambda: frozen(rng, stats.expon, (), None, rng.choice([1.0, 2.0]))),
         ('gamma', lambda: frozen(rng, stats.gamma, (rng.choice([2.0, 3.5]),), None, rng.choice([1.0, 0.5]))),
         ('uniform', lambda: frozen(rng, stats.uniform, (), rng.choice([0.0, -1.0]), rng.choice([1.0, 3.0]))),
@@ -129,7 +129,9 @@ def explore(res, rng, n):
         # lower tail (exact in binary64: cdf values down to 1e-20 are representable; the upper tail is not tested because
         # 1 - cdf saturates beyond ~8 sigma, a numerical limit of the cdf/ppf route and not of the transformation)
         ut = np.array([rng.uniform(-8.7, -5.0) if k == 0 else rng.uniform(-1, 1) for k in range(d)])
-        if float(np.max(nat.L @ ut)) <= 3.5:
+        p0_ = float(stats.norm.cdf(ut[0]))
+        marg_ok = abs(float(dists[0].cdf(dists[0].ppf(p0_))) - p0_) <= 1e-9 * p0_     # the marginal itself resolves that tail probability
+        if float(np.max(nat.L @ ut)) <= 3.5 and marg_ok:
             res.stat('lower_tail_round_trip')
             xt, _ = nat.getX(ut)
             ub, _ = nat.getU(xt)
@@ -148,6 +150,19 @@ def explore(res, rng, n):
         if not np.allclose(np.array(xi, dtype=float), xf, rtol=1e-12, atol=1e-12):
             fail(res, 'integer input is truncated', case, {'U': ui, 'int': np.array(xi).tolist(), 'float': np.array(xf).tolist()},
                  sig='C11:integer-input-truncated')
+        # the same for a point of X space given as integers (getU, pdf, cdf): identical to the float point
+        xi_ = [int(v) for v in np.round(x)]
+        if all(0 < ds.cdf(v) < 1 for ds, v in zip(dists, xi_)):
+            xf_ = [float(v) for v in xi_]
+            res.stat('integer_valued_X_point')
+            for nm_, fn_ in (('getU', lambda p: np.asarray(nat.getU(p)[0], dtype=float)), ('pdf', lambda p: float(nat.pdf(p))),
+                             ('cdf', lambda p: float(nat.cdf(p)))):
+                for label, pt in (('list of ints', xi_), ('int64 array', np.array(xi_, dtype=np.int64))):
+                    a_, b_ = fn_(pt), fn_(xf_)
+                    # (scipy integrates the multivariate normal cdf by randomised quasi-Monte-Carlo from dimension 3: 1e-4)
+                    if not np.allclose(a_, b_, rtol=(1e-9 if nm_ != 'cdf' else 2e-3), atol=(1e-300 if nm_ != 'cdf' else 2e-5)):
+                        fail(res, f'{nm_} of an integer-typed point ({label}) differs from the same point as floats', case,
+                             {'X': xi_, 'int': np.asarray(a_).tolist(), 'float': np.asarray(b_).tolist()}, sig='C11:integer-input-truncated:' + nm_)
         # latent correlation: normal marginals -> prescribed; lognormal pair -> closed form
         for a in range(d):
             for b in range(a + 1, d):
@@ -191,15 +206,28 @@ def explore(res, rng, n):
                 fail(res, 'pdf does not integrate to one', case, tot,
                      sig=KNOWN_COV if math.isclose(float(nat.pdf(xm)), scaled_cov_values(nat, dists, xm)[0], rel_tol=1e-9) and abs(dists[0].std() - 1) > 1e-9 else None)
         if d == 2 and i % 4 == 0:
-            lo = [ds.ppf(1e-6) for ds in dists]; hi = [ds.ppf(1 - 1e-6) for ds in dists]
-            tot, _ = integrate.dblquad(lambda b, a: float(nat.pdf([a, b])), lo[0], hi[0], lo[1], hi[1], epsabs=1e-5, epsrel=1e-5)
+            # fixed Gauss-Legendre rule in the latent coordinates z (x_k = ppf_k(Phi(z_k)), dx_k = phi(z_k)/f_k(x_k) dz_k): the
+            # integrand is smooth there whatever the marginals are, and the cost is bounded (2 x 40 x 40 pdf evaluations)
+            nodes, wts = np.polynomial.legendre.leggauss(40)
+
+            def integral(zhi):
+                tot_ = 0.0
+                for a_, wa in zip(nodes, wts):
+                    za = -6.5 + (a_ + 1) * (zhi[0] + 6.5) / 2
+                    xa = dists[0].ppf(stats.norm.cdf(za)); ja = stats.norm.pdf(za) / dists[0].pdf(xa)
+                    for b_, wb in zip(nodes, wts):
+                        zb = -6.5 + (b_ + 1) * (zhi[1] + 6.5) / 2
+                        xb = dists[1].ppf(stats.norm.cdf(zb)); jb = stats.norm.pdf(zb) / dists[1].pdf(xb)
+                        tot_ += wa * wb * float(nat.pdf([xa, xb])) * ja * jb
+                return tot_ * (zhi[0] + 6.5) / 2 * (zhi[1] + 6.5) / 2
+            tot = integral([6.5, 6.5])
             unit = all(abs(ds.std() - 1) < 1e-9 for ds in dists)
             xm = [ds.ppf(0.6) for ds in dists]
             scaled = (not unit) and math.isclose(float(nat.pdf(xm)), scaled_cov_values(nat, dists, xm)[0], rel_tol=1e-9)
             if abs(tot - 1) > 2e-3:
                 fail(res, 'pdf does not integrate to one', case, tot, sig=KNOWN_COV if scaled else None)
             mid = [ds.ppf(0.6) for ds in dists]
-            part, _ = integrate.dblquad(lambda b, a: float(nat.pdf([a, b])), lo[0], mid[0], lo[1], mid[1], epsabs=1e-5, epsrel=1e-5)
+            part = integral([float(stats.norm.ppf(0.6))] * 2)
             if abs(part - float(nat.cdf(mid))) > 2e-3:
                 fail(res, 'cdf is not the integral of the pdf', case, [part, float(nat.cdf(mid))], sig=KNOWN_COV if scaled else None)
 
@@ -274,6 +302,24 @@ def pdf_tails(res):
             fail(res, 'pdf does not factor into the marginals at identity correlation (small densities)', case, [got, want])
 
 
+def shifted_lognormal(res):
+    """lognormal marginals with a location shift: the latent correlation depends on the shape parameters only"""
+    core.import_impl()
+    import numpy as np
+    from scipy import stats
+    from ffpack import rpm
+    for (s1, l1, c1), (s2, l2, c2), rho in (((0.5, 10.0, 1.0), (0.5, 0.0, 1.0), 0.6), ((0.25, -2.0, 2.0), (1.0, 5.0, 1.0), 0.3),
+                                            ((0.5, 10.0, 1.0), (0.75, 3.0, 0.5), -0.4)):
+        case = {'marginals': [['lognorm', s1, 'loc', l1, 'scale', c1], ['lognorm', s2, 'loc', l2, 'scale', c2]], 'corr': rho}
+        res.evaluations += 1
+        res.nontrivial.add(json.dumps(case))
+        res.stat('shifted_lognormal_pair')
+        nat = rpm.NatafTransformation([stats.lognorm(s1, loc=l1, scale=c1), stats.lognorm(s2, loc=l2, scale=c2)], [[1.0, rho], [rho, 1.0]])
+        want = math.log(1 + rho * math.sqrt((math.exp(s1 * s1) - 1) * (math.exp(s2 * s2) - 1))) / (s1 * s2)
+        if abs(float(nat.rhoZ[0, 1]) - want) > 1e-5:
+            fail(res, 'latent correlation differs from the lognormal closed form', case, [float(nat.rhoZ[0, 1]), want])
+
+
 def fallback_search(res):
     """the last-resort root search: make the first two fsolve calls report failure (fault injected from outside)"""
     core.import_impl()
@@ -312,6 +358,7 @@ def run(tier, seed):
     same_family(res, random.Random(seed + 1))
     sparse_corr(res)
     pdf_tails(res)
+    shifted_lognormal(res)
     fallback_search(res)
     res.traces = res.evaluations
     res.disagreements_checked = res.evaluations
